@@ -349,8 +349,20 @@ def catalogue(sx, B):
             if len(set(rank_of_atom[a] for a in inter.atoms)) > 1:
                 got_inter.add((t, tuple(tag(a) for a in inter.atoms), tuple(inter.parameters)))
     sx.cover("applied" if want_inter else "not applied")
-    sx.claim(got_inter == want_inter, "inter-residue interactions are exactly those of the matching link applications",
-             lambda: what() + ": missing %r extra %r" % (sorted(want_inter - got_inter), sorted(got_inter - want_inter)))
+    # several applications of one link may define the same atoms and version with different parameters (e.g. a residue that is
+    # the '>' partner in one match and the '>>' partner in another): the statement leaves open which one survives
+    alternatives = {}
+    for (t, atoms, params) in want_inter:
+        alternatives.setdefault((t, atoms), set()).add(params)
+    conflicts = {k for k, v in alternatives.items() if len(v) > 1 and lname == "centre with > and >> neighbours"}
+    want_cmp = set(x for x in want_inter if (x[0], x[1]) not in conflicts)
+    got_cmp = set(x for x in got_inter if (x[0], x[1]) not in conflicts)
+    sx.claim(got_cmp == want_cmp, "inter-residue interactions are exactly those of the matching link applications",
+             lambda: what() + ": missing %r extra %r" % (sorted(want_cmp - got_cmp), sorted(got_cmp - want_cmp)))
+    for key in conflicts:
+        mine = [x for x in got_inter if (x[0], x[1]) == key]
+        sx.claim(len(mine) == 1 and mine[0][2] in alternatives[key], "conflicting applications of one link on the same atoms leave exactly one of their definitions",
+                 lambda: what() + ": %r" % (mine,))
     # edges between residues = pairs bonded by an applied interaction (consecutive atoms)
     want_edges = set()
     for (t, atoms, _) in want_inter:
